@@ -27,7 +27,7 @@ ASSUMPTIONS = ["acceptance of words longer than L (8 quick / 11 thorough) is cov
                "reads only states/transitions/initial_state/final_states of automata-lib DFA objects"]
 REQUIRED = ["calls.PinWords.make_dfa_for_perm", "calls.PinWords.make_dfa_for_basis_from_pinwords", "calls.PinWords.make_dfa_for_basis_from_db",
             "calls.PinWords.has_finite_pinperms", "words.decided", "words.accepted", "words.rejected", "equivalence.checked", "finite.true", "finite.false",
-            "counts.lengths_checked"]
+            "counts.lengths_checked", "nonpin.bases"]
 MIN_NONTRIVIAL = 500
 CTX = None
 MON = None
@@ -198,11 +198,39 @@ def plan(tier, seed):
         bases = [[p] for p in small + s4] + [[a, b] for a, b in itertools.combinations(small[3:] + s4[::3], 2)][::4]
         nrand = 40
     parts = 16
-    return [{"name": f"bases-{i}", "kind": "bases", "bases": bases[i::parts], "rand": max(0, nrand // parts + (i < nrand % parts))} for i in range(parts)]
+    specs = [{"name": f"bases-{i}", "kind": "bases", "bases": bases[i::parts], "rand": max(0, nrand // parts + (i < nrand % parts))} for i in range(parts)]
+    specs.append({"name": "nonpin", "kind": "nonpin", "count": 2 if tier == "quick" else 3})
+    return specs
+
+
+def nonpin_bases(rng):
+    """bases whose smallest element (in the library's order) has NO pin word: its automaton is the empty language"""
+    pin6 = {P.perm_of_word(w) for w in P.valid_words(6)}
+    allp = list(C.all_perms(6))
+    nonpin = [t for t in allp if t not in pin6]
+    CTX.counters["nonpin.length6_found"] = len(nonpin)
+    out = []
+    if nonpin:
+        a = nonpin[0]
+        out.append([list(a), list(nonpin[-1])])
+        bigger_pin = next((t for t in allp if t > a and t in pin6), None)
+        if bigger_pin:
+            out.append([list(a), list(bigger_pin)])
+        b = rng.choice(nonpin)
+        later = [t for t in allp if t > b and t in pin6]
+        if later:
+            out.append([list(b), list(rng.choice(later))])
+    return out
 
 
 def run(ctx, spec):
     rng = ctx.rng
+    if spec.get("kind") == "nonpin":
+        for basis in nonpin_bases(rng)[: spec["count"]]:
+            chk_basis(ctx, basis)
+            ctx.count("nonpin.bases")
+        ctx.sample({"nonpin_basis": basis})
+        return
     for basis in spec["bases"]:
         chk_basis(ctx, basis)
     for _ in range(spec["rand"]):
